@@ -18,7 +18,9 @@ import (
 )
 
 func c22History(t *testing.T, rep *vfReport, r *vfRng, nOps int, join, voter bool) (ops, impl []string) {
-	e := ssmNewEnv(t, rep, r, "C22", false)
+	var e *ssmEnv
+	defer ssmGuard(rep, &e, &ops, &impl)
+	e = ssmNewEnv(t, rep, r, "C22", false)
 	defer e.cleanup()
 	loads, bads, restarts := 0, 0, 0
 	for i := 0; i < nOps && !e.broken; i++ {
@@ -88,23 +90,26 @@ func c22Join(t *testing.T, rep *vfReport, e *ssmEnv, voter bool) {
 		t.Fatalf("open joiner: %v", err)
 	}
 	defer s1.Close(true)
-	if err := e.s.Join(joinRequest(s1.ID(), s1.Addr(), voter)); err != nil {
-		t.Fatalf("join: %v", err)
+	if err := ssmRetry(e.s, func() error { return e.s.Join(joinRequest(s1.ID(), s1.Addr(), voter)) }); err != nil {
+		e.opFailed("join", err)
 	}
 	kind := "voter"
 	if !voter {
 		kind = "read-only-node"
 	}
-	if _, err := s1.WaitForLeader(15 * time.Second); err != nil {
-		t.Fatalf("joiner leader: %v", err)
+	if _, err := s1.WaitForLeader(60 * time.Second); err != nil {
+		ssmAbandonNow(fmt.Sprintf("joiner never saw a leader: %v", err))
 	}
 	want := e.want.String()
 	got := ""
-	for i := 0; i < 200; i++ {
+	for i := 0; i < 1200; i++ {
 		if got = ssmQueryDump(s1); got == want {
 			break
 		}
 		time.Sleep(50 * time.Millisecond)
+	}
+	if got != want && s1.AppliedIndex() < e.s.AppliedIndex() {
+		ssmAbandonNow("joiner did not reach the leader's applied index within 60 s")
 	}
 	e.hist = append(e.hist, "join("+kind+")")
 	rep.Count("op-join-" + kind)
@@ -122,11 +127,14 @@ func c22Join(t *testing.T, rep *vfReport, e *ssmEnv, voter bool) {
 	follow := func(what string) {
 		want := e.want.String()
 		got := ""
-		for i := 0; i < 200; i++ {
+		for i := 0; i < 1200; i++ {
 			if got = ssmQueryDump(s1); got == want && s1.AppliedIndex() >= e.s.AppliedIndex() {
 				break
 			}
 			time.Sleep(50 * time.Millisecond)
+		}
+		if got != want && s1.AppliedIndex() < e.s.AppliedIndex() {
+			ssmAbandonNow("follower did not reach the leader's applied index within 60 s after " + what)
 		}
 		rep.Count("follower-checked-after-" + what)
 		e.emit("join", got)
@@ -143,7 +151,7 @@ func c22Join(t *testing.T, rep *vfReport, e *ssmEnv, voter bool) {
 		rows := e.genRows()
 		b := ssmMakeDB(e.t, e.dir, rows, e.r.Bool())
 		e.emit("setconfig "+ssmRaftConfigList(e.s), "ok")
-		_, err := e.s.ReadFrom(bytes.NewReader(b))
+		err := ssmRetry(e.s, func() error { _, err := e.s.ReadFrom(bytes.NewReader(b)); return err }) // "not leader" is checked first and is not the refusal under test
 		e.hist = append(e.hist, fmt.Sprintf("boot-attempt(%s)", rows))
 		rep.Count("boot-attempt-with-" + kind + "-attached")
 		if err == nil {
@@ -153,6 +161,9 @@ func c22Join(t *testing.T, rep *vfReport, e *ssmEnv, voter bool) {
 				e.hist, ssmRaftConfigList(e.s), ssmQueryDump(e.s), got), map[string]interface{}{"history": e.hist})
 			e.broken = true
 			return
+		}
+		if err != ErrNotSingleNode && ssmLoadRelated(err) {
+			ssmAbandonNow(fmt.Sprintf("boot attempt: %v", err))
 		}
 		if err != ErrNotSingleNode {
 			rep.Fail("boot-attempt-unexpected-error", fmt.Sprintf("history %v: %v", e.hist, err), map[string]interface{}{"history": e.hist})
@@ -192,5 +203,6 @@ func TestVerifC22(t *testing.T) {
 		allOps = append(allOps, ops)
 		allImpl = append(allImpl, impl)
 	}
+	ssmFloor(rep)
 	rep.vfCompareSegments("storesm", allOps, allImpl)
 }
